@@ -8,6 +8,8 @@ class Polygon
 {
     public:
         void *_verif_vptr;
+        Polygon();
+        Polygon(const Polygon& other);   // implicit in the real class
         size_t size(void) const;
         const Point& at(size_t index) const;
         int _id;
